@@ -167,7 +167,15 @@ func runBktScenario(rep *Report, sc bktScenario, tag string) {
 			order = append(order, n)
 		}
 	}
-	defer func() { bolt.VerifEventHook = nil }()
+	defer func() { bolt.VerifEventHook = nil; bolt.VerifFLHook = nil }()
+	var freedLog []uint64
+	bolt.VerifFLHook = func(_ *bolt.DB, ev string, a, b, c uint64) {
+		if ev == "free" {
+			for i := uint64(0); i <= c; i++ {
+				freedLog = append(freedLog, b+i)
+			}
+		}
+	}
 	ps := db.Info().PageSize
 	if err := db.Update(func(tx *bolt.Tx) error { _, err := tx.CreateBucket([]byte("b")); return err }); err != nil {
 		return
@@ -199,6 +207,7 @@ func runBktScenario(rep *Report, sc bktScenario, tag string) {
 			fail("bkt-begin-failed", err.Error())
 			return
 		}
+		freedLog = freedLog[:0]
 		top := tx.Bucket([]byte("b"))
 		top.FillPercent = t.Fill
 		for _, o := range t.Ops {
@@ -272,6 +281,30 @@ func runBktScenario(rep *Report, sc bktScenario, tag string) {
 		add("commit "+strings.Join(os_, ","), "ok a=true")
 		var after string
 		_ = db.View(func(tx *bolt.Tx) error { after = tx.Bucket([]byte("b")).VerifBucketTree(true); return nil })
+		// page accounting over the whole bucket tree (nested and deleted buckets included): the pages
+		// of the old state that the new state no longer references are exactly the pages freed, each once
+		{
+			surv := map[string]bool{}
+			if ab, _ := parseBK(strings.Fields(after)); ab != nil {
+				ab.pgids(surv)
+			}
+			seen := map[uint64]int{}
+			for _, id := range freedLog {
+				seen[id]++
+			}
+			for pg := range beforeSet {
+				var id uint64
+				fmt.Sscan(pg, &id)
+				switch {
+				case surv[pg] && seen[id] > 0:
+					rep.violation("C07", "monitor", "bucket-page-freed-and-kept", fmt.Sprintf("tx %d: page %s of the old bucket tree was freed although the committed state still references it", ti, pg), sc)
+				case !surv[pg] && seen[id] == 0:
+					rep.violation("C07", "monitor", "bucket-page-leaked", fmt.Sprintf("tx %d: page %s of the old bucket tree is neither referenced by the committed state nor freed", ti, pg), sc)
+				case seen[id] > 1:
+					rep.violation("C07", "monitor", "bucket-page-freed-twice", fmt.Sprintf("tx %d: page %s freed %d times", ti, pg, seen[id]), sc)
+				}
+			}
+		}
 		add("full", "KEEP:"+bkCanon(after, beforeSet))
 		add("fullok", "o=true")
 		rep.count("tx")
